@@ -5,6 +5,12 @@
 // function variables; without it they are empty and inlined away.
 package verifhook
 
+import (
+	"fmt"
+	"os"
+	"runtime"
+)
+
 // EmitFn, if set, receives named events with integer arguments.
 var EmitFn func(name string, args ...int)
 
@@ -20,5 +26,36 @@ func Emit(name string, args ...int) {
 func Point(name string) {
 	if f := PointFn; f != nil {
 		f(name)
+	}
+}
+
+// When VERIF_TRACE names a file, every event is appended to it as one JSON line with the
+// process and goroutine id, so that a whole `go test -tags verif ./...` run can be validated
+// against the specification afterwards (spec/HookTrace.tla in /verif).
+func init() {
+	path := os.Getenv("VERIF_TRACE")
+	if path == "" {
+		return
+	}
+	f, err := os.OpenFile(path, os.O_APPEND|os.O_CREATE|os.O_WRONLY, 0o644)
+	if err != nil {
+		return
+	}
+	pid := os.Getpid()
+	EmitFn = func(name string, args ...int) {
+		var buf [64]byte
+		n := runtime.Stack(buf[:], false)
+		g := 0
+		fmt.Sscanf(string(buf[:n]), "goroutine %d ", &g)
+		var line string
+		switch {
+		case (name == "stream.flush" || name == "stream.chunk") && len(args) == 3:
+			line = fmt.Sprintf(`{"ev":%q,"pid":%d,"g":%d,"ctr":%d,"fin":%d,"len":%d}`, name, pid, g, args[0], args[1], args[2])
+		case name == "scrypt.derive" && len(args) == 1:
+			line = fmt.Sprintf(`{"ev":%q,"pid":%d,"g":%d,"logN":%d}`, name, pid, g, args[0])
+		default:
+			return
+		}
+		f.WriteString(line + "\n") // one write per event; O_APPEND keeps lines of concurrent processes whole
 	}
 }
